@@ -49,12 +49,11 @@ def fmt(d):
     return "%s(%s)" % (d[0], ", ".join("%s=%s" % kv for kv in d[1]))
 
 
-def r1(ctx):
-    rule = "C10.R1"
+def r1(ctx, rule="C10.R1"):
     ctx.rule(rule, "T3-a/T2 sibling agreement of the 13 PackedWrite/PackedRead primitive pairs: equal boundary facts "
                    "over shared bound parameters and equal codec-call skeletons (method, constraint-argument descriptors)")
     pairs = primitive_pairs(ctx, rule)
-    ctx.floor(rule, len(pairs), "C10.R1.pairs")
+    ctx.floor(rule, len(pairs), rule + ".pairs")
     for name, wb, rb in pairs:
         shared = shared_params(wb, rb)
         R.compare_sibling_boundaries(ctx, rule, name, wb, rb, shared)
@@ -347,6 +346,40 @@ def r7(ctx):
     ctx.floor(rule, n, "C10.R7.reads")
 
 
+def r10(ctx):
+    rule = "C10.R10"
+    ctx.rule(rule, "every fragment of a BIT STRING is taken relative to the caller's source offset: each source position "
+                   "PackedWrite::write_bitstring hands to write_bits_with_offset_len derives from its `offset` parameter (the first "
+                   "fragment from `offset`, follow-up fragments from `offset + written`); a follow-up position made of the written "
+                   "count alone repeats / loses bits whenever the source does not start at bit 0")
+    P = ctx.program()
+    bs = [b for b in P.lib_bodies("asn1rs") if PW in b.path and b.name == "write_bitstring" and b.def_kind == "AssocFn" and "::promoted[" not in b.path]
+    if len(bs) != 1:
+        ctx.fail(rule, "anchor-lost:write_bitstring", "matched %d bodies" % len(bs))
+        return
+    b = bs[0]
+    O = X.Origins(b, P)
+    idx = [i for i, nm in b.param_names().items() if nm == "offset"]
+    if not idx:
+        ctx.fail(rule, "anchor-lost:offset", "write_bitstring has no parameter `offset`", "%s:%d" % (b.file, b.line))
+        return
+    n = 0
+    for cs in b.calls():
+        if cs.name != "write_bits_with_offset_len" or len(cs.args) < 3:
+            continue
+        n += 1
+        a = O.call_args(cs)[2]
+        uses = any(e[0] == "param" and e[1] == idx[0] for e in X.walk(a))
+        d = {"function": b.path, "call": cs.loc(), "source_position": F.rd(R.positional(a))[:160]}
+        key = "write_bitstring#source-position#%d" % n
+        if uses:
+            ctx.ok(rule, key, d)
+        else:
+            ctx.fail(rule, "write_bitstring#source-position", "the source position `%s` of the fragment written at %s does not derive from "
+                                                              "`offset`" % (d["source_position"][:80], cs.loc()), cs.loc(), d)
+    ctx.floor(rule, n, "C10.R10.calls")
+
+
 def run(ctx):
     r1(ctx)
     selectors(ctx, "C10.R6", pin=False)
@@ -355,6 +388,7 @@ def run(ctx):
     from .c02 import r3 as sign_sensitivity
     sign_sensitivity(ctx, rule="C10.R5")
     r7(ctx)
+    r10(ctx)
     # the facts X.691 requires of each PackedWrite / PackedRead primitive (thresholds, field widths, the reader's offset check)
     # are facts about the primitives of this property as well (shared with C02.R1 / R2)
     import json
